@@ -22,7 +22,7 @@ func init() {
 				"(more) the extra reward of locked stakes returned by PayRewards is added both to the emission counter and to the base-coin volume known to the supply checker; " +
 				"(carry) accumulated rewards survive a validator-set rebuild or return to the pool — violated on a public-key change (known finding, reproduced).",
 			Assumptions: stdAssumptions,
-			Rules:       []string{"C19.present", "C19.dropped", "C19.payout", "C19.more", "C19.carry"},
+			Rules:       []string{"C19.present", "C19.dropped", "C19.payout", "C19.more", "C19.carry", "C19.all"},
 		},
 		Run: runC19,
 	})
@@ -44,6 +44,16 @@ func runC19(c *core.Ctx) {
 		}
 	}
 	c.Floor("C19.payout", n, 4, "PayRewards versions")
+	if vt != nil {
+		var pay []*ssa.Function
+		for _, name := range []string{"PayRewardsV3", "PayRewardsV4", "PayRewardsV5Bug", "PayRewardsV5Fix"} {
+			if fn := c.Method(vt, name); fn != nil {
+				pay = append(pay, fn)
+				pay = append(pay, c.Helpers(fn)...)
+			}
+		}
+		checkNoElementExit(c, "C19.all", pay)
+	}
 	checkCarry(c, "C19.carry")
 	// rates
 	for _, pk := range []string{"coreV2/dao", "coreV2/developers"} {
@@ -369,4 +379,93 @@ func checkPayout(c *core.Ctx, fn *ssa.Function) {
 		}
 	}
 	c.Check(subs >= 3, "C19.payout", name+"/remainder-subs", fn.Pos(), fmt.Sprintf("%d shares are subtracted from the remainder (delegators, validator, DAO, developers)", subs), "fewer than three kinds of payments are subtracted from the remainder")
+}
+
+// checkNoElementExit — in the pay-out functions every loop over a list (validators, the stakes of
+// one validator) visits ALL elements: an exit from the loop whose condition is a property of the
+// element being visited (`if stake.BipValue.Sign() == 0 { break }`) ends the distribution for
+// everything behind that element — the delegators in later slots get nothing, the unpaid part goes
+// to the remainder, and no invariant notices. A per-element condition may only skip the element.
+func checkNoElementExit(c *core.Ctx, rule string, fns []*ssa.Function) {
+	n := 0
+	for _, fn := range fns {
+		if fn == nil || fn.Blocks == nil {
+			continue
+		}
+		k := 0
+		for _, b := range fn.Blocks {
+			for _, in := range b.Instrs {
+				ia, ok := in.(*ssa.IndexAddr)
+				if !ok || !core.InCycle(b) {
+					continue
+				}
+				ph, isPhi := core.Unwrap(ia.Index).(*ssa.Phi)
+				if !isPhi {
+					// rangeindex: the index is phi+1 computed in the header
+					if bin, isBin := core.Unwrap(ia.Index).(*ssa.BinOp); isBin {
+						ph, isPhi = core.Unwrap(bin.X).(*ssa.Phi)
+					}
+				}
+				if !isPhi || !core.InCycle(ph.Block()) {
+					continue
+				}
+				// the (innermost) loop of this element: the natural loop of the back edges of the
+				// block that holds the index
+				h := ph.Block()
+				loop := map[*ssa.BasicBlock]bool{h: true}
+				var work []*ssa.BasicBlock
+				for _, p := range h.Preds {
+					if h.Dominates(p) {
+						work = append(work, p)
+					}
+				}
+				for len(work) > 0 {
+					x := work[len(work)-1]
+					work = work[:len(work)-1]
+					if loop[x] {
+						continue
+					}
+					loop[x] = true
+					work = append(work, x.Preds...)
+				}
+				if !loop[b] {
+					continue
+				}
+				n++
+				k++
+				bad := ""
+				for x := range loop {
+					iff := core.IfOf(x)
+					if iff == nil {
+						continue
+					}
+					// an exit that goes on with the code behind the loop (not into a panic)
+					leaves := false
+					for _, sc := range x.Succs {
+						if loop[sc] {
+							continue
+						}
+						reach := core.ReachFrom(sc, nil)
+						reach[sc] = true
+						for y := range reach {
+							if len(y.Instrs) > 0 {
+								if _, isRet := y.Instrs[len(y.Instrs)-1].(*ssa.Return); isRet {
+									leaves = true
+								}
+							}
+						}
+					}
+					if !leaves {
+						continue
+					}
+					if core.DependsOn(iff.Cond, func(v ssa.Value) bool { return v == ssa.Value(ia) }) {
+						bad = c.PosStr(iff.Cond.Pos())
+					}
+				}
+				c.Check(bad == "", rule, fmt.Sprintf("%s/loop#%d", fn.Name(), k), ia.Pos(), "no exit of the loop depends on the element being visited",
+					"the loop is left (at "+bad+") on a condition of the element being visited: the elements behind it are never processed — a zero-valued stake in an early slot cuts every later delegator off from the pay-out")
+			}
+		}
+	}
+	c.Floor(rule, n, 4, "element loops in the pay-out functions")
 }
